@@ -274,6 +274,9 @@ func (m *Machine) setupIntrinsics() {
 		if m.opt.FixedHdr {
 			n = 3
 		}
+		if m.opt.HdrLen > 0 {
+			n = m.opt.HdrLen
+		}
 		id := m.newBlob("thrift", ci, nil, n)
 		return Slice{V: blobBytes(id, n)}
 	})
